@@ -144,9 +144,17 @@ func Reduce(
 		buckets = buckets.With(key, slot)
 	}
 
-	result := None
+	// Collect all reduced elements in one builder rather than unioning the per-key sets:
+	// a union of e.g. non-adjacent string fragments is not brought back into canonical form.
+	sb := NewSetBuilder()
 	for i := buckets.Range(); i.Next(); {
-		result = Union(result, reduce(i.Key(), i.Value().(Set)))
+		for e := reduce(i.Key(), i.Value().(Set)).Enumerator(); e.MoveNext(); {
+			sb.Add(e.Current())
+		}
+	}
+	result, err := sb.Finish()
+	if err != nil {
+		panic(err)
 	}
 	return result
 }
@@ -300,13 +308,20 @@ func GenericJoin(
 	accumulate(a, aSlot)
 	accumulate(b, bSlot)
 
-	result := None
+	// As in Reduce: one builder for all joined elements, not a union of per-key sets.
+	sb := NewSetBuilder()
 	for i := mb.Finish().Range(); i.Next(); {
 		key, v := i.Entry()
 		slots := v.([2]Set)
 		aSet := slots[aSlot]
 		bSet := slots[bSlot]
-		result = Union(result, join(key, aSet, bSet))
+		for e := join(key, aSet, bSet).Enumerator(); e.MoveNext(); {
+			sb.Add(e.Current())
+		}
+	}
+	result, err := sb.Finish()
+	if err != nil {
+		panic(err)
 	}
 	return result
 }
